@@ -10,8 +10,8 @@ CONFIG = {
     'C02': dict(streams=[('td_exact', 880), ('td_wf', 480)], keep='ov'),
     'C03': dict(streams=[('bu_wf', 880), ('mixed_wf', 320), ('newreq', 160), ('fail_bu', 200)], keep='ovm'),
     'C04': dict(streams=[('bu_wf', 1120), ('mixed_wf', 160), ('newreq', 160), ('abort_bu', 240)], keep='ov'),
-    'C05': dict(streams=[('inj_hidden', 1200), ('siblings', 240), ('td_wf', 160)], keep='om'),
-    'C06': dict(streams=[('inj_overlap', 1200), ('td_wf', 160)], keep='om'),
+    'C05': dict(streams=[('inj_hidden', 1200), ('siblings', 240), ('td_wf', 160), ('same_session', 80)], keep='om'),
+    'C06': dict(streams=[('inj_overlap', 1200), ('td_wf', 160), ('same_session', 80)], keep='om'),
     'C07': dict(streams=[('inj_cycle', 1040), ('reorder_cycle', 240)], keep='ov'),
     'C08': dict(streams=[('td_wf', 560), ('bu_wf', 320), ('multi', 80), ('panic', 240), ('abort_bu', 120)], keep='od'),
     'C09': dict(streams=[('td_coarse', 880), ('bu_wf', 320), ('multi', 80)], keep='dv', extra='stampsrc'),
@@ -43,6 +43,10 @@ def make_case(rng, stream, big=False):
     if stream == 'reorder_cycle':
         p, steps = P.gen_reorder_cycle_program(rng)
         return p, steps, norm_meta({}, 'td')
+    if stream == 'same_session':
+        p, steps, meta = P.gen_same_session_program(rng)
+        m = norm_meta({}, 'td'); m['impl_only'] = True
+        return p, steps, m
     if stream == 'multi':
         p = P.gen_multi_program(rng)
         steps = [['E', '0', '1'], ['S', '1', 'q', '0'], ['E', '0', '2'], ['S', '1', 'q', '0'], ['S', '1', 'q', '0']]
@@ -236,7 +240,7 @@ def run(prop, tier, seed, replay=None):
             a, b = impl[i], impl2[i] or []
             first = next((j for j, (x, y) in enumerate(zip(a, b)) if x != y), min(len(a), len(b)))
             findings.append(('nondeterministic', 'two replays of the same history in two processes (the second one after an unrelated instance had been built, and a bottom-up build of it abandoned, in the same thread) differ at observation line %d: %r vs %r' % (first, a[first] if first < len(a) else None, b[first] if first < len(b) else None), i))
-        if model is not None:
+        if model is not None and not meta.get('impl_only'):
             a = comparable(impl[i], cfg['keep'])
             b = comparable(model[i] or [], cfg['keep'])
             if a != b:
@@ -493,6 +497,16 @@ def corpus(prop):
         out.append(mk({0: ('R', 0, 0, ('I', ('l', 1), ('Q', 1, 0, ('R', 0, 0, ('D',))), ('R', 0, 0, ('D',)))),
                        1: ('R', 0, 0, ('I', ('l', 2), ('Q', 0, 0, ('D',)), ('D',)))},
                       [['E', '0', '0'], ['S', '1', 'q', '0'], ['E', '0', '1'], ['S', '1', 'q', '0']], kind='roles'))
+    if prop == 'C20':
+        # bottom-up, the writer role of r10 moves from Deep(2) to Mid(1) while Root(0) newly requires Mid: require_scheduled_now
+        # must run the deepest scheduled dependency (Deep, which drops its write) before Mid (which now writes)
+        p = P.Prog(); p.kind = 'roles'; p.exact_only = True; p.sources = [0, 1]; p.generated = {10: (None, 0)}
+        p.tasks = {2: ('R', 0, 0, ('I', ('l', 2), ('W', 10, 0, ('k', 3), ('T', ('k', 1))), ('T', ('k', 0)))),
+                   1: ('R', 0, 0, ('I', ('l', 2), ('Q', 2, 0, ('T', ('a',))), ('W', 10, 0, ('k', 4), ('T', ('k', 7))))),
+                   0: ('R', 1, 0, ('I', ('l', 2), ('Q', 1, 2, ('T', ('k', 9))), ('T', ('k', 9))))}
+        out.append((p, [['E', '0', '1'], ['E', '1', '0'], ['S', '2', 'q', '1', 'q', '0'], ['E', '0', '2'], ['E', '1', '1'], ['S', '1', 'b', '2', '0', '1'],
+                        ['S', '3', 'q', '0', 'q', '1', 'q', '2']],
+                    {'mode': 'mixed', 'repeat_steps': set(), 'probe_steps': {}, 'bu_steps': {5}}, 'corpus'))
     # O4 (recorded finding for C03)
     if prop in ('C03',):
         p = P.Prog(); p.tasks = {2: ('Q', 1, 0, ('D',)), 1: ('R', 1, 0, ('D',))}; p.sources = [1]
